@@ -754,6 +754,97 @@ def run_registry(desc, tamper=False):
             {'native': native, 'raised': raised})
 
 
+# ---- sessions on ONE adapter instance: adapt_func / restore_func interleaved with register / unregister
+class RecHolder:
+    def __init__(self, rec):
+        self.rec = rec
+
+    def method(self, *a, **kw):
+        self.rec.append(a[-1] if a else None)
+
+
+class RecCallable:
+    def __init__(self, rec):
+        self.rec = rec
+
+    def __call__(self, *a, **kw):
+        self.rec.append(a[-1] if a else None)
+
+
+def recording_functions(rec):
+    """callables that record the last positional argument they were given"""
+    def f0(*a, **kw):
+        rec.append(a[-1] if a else None)
+
+    def f1(*a):
+        rec.append(a[-1] if a else None)
+    def f2(x=None, *a, **kw):
+        rec.append(a[-1] if a else x)
+    h = RecHolder(rec)
+    return [f0, f1, f2, RecCallable(rec), (lambda *a: rec.append(a[-1] if a else None))], h
+
+
+def gen_session_desc(r):
+    nfun = 5
+    pool = [gen_term(r, nfun, depth=r.choice([0, 0, 1, 1, 2, 3])) for _ in range(r.choice([1, 2, 3]))]
+    # other wrappings of the same underlying functions
+    for t in list(pool)[:2]:
+        q = ['f', _underlying(t)]
+        for _ in range(r.choice([0, 1, 2])):
+            q = [r.choice(['p', 'm']), q]
+        pool.append(q)
+    steps = []
+    for _ in range(r.randint(3, 9)):
+        steps.append([r.choice(['reg', 'unreg', 'adapt', 'adapt', 'adapt', 'restore']), r.randrange(len(pool))])
+    return {'pool': pool, 'steps': steps, 'decorator': r.random() < 0.5}
+
+
+SESSION_FN = ('fun c => match c with (ops, ad, q, n, s, d) => [agree_session ops ad q n s d; holds_session ops ad q n s d] end')
+SESSION_TY = 'list reg_op * bool * callable * bool * bool * bool'
+
+
+def run_session(desc):
+    """one adapter instance, one python object per pool entry (re-used by every step that names it).
+    Returns one Coq case per adapt / restore step."""
+    rec = []
+    funs, holder = recording_functions(rec)
+    reg = AdaptRegistry()
+    ad = BaseNetworkxAdapter()
+    objs = [build_term(t, funs, holder) for t in desc['pool']]
+    ops, out = [], []
+    try:
+        for k, (what, i) in enumerate(desc['steps']):
+            o, t = objs[i], desc['pool'][i]
+            if what == 'reg':
+                (register_native if desc['decorator'] else reg.register_native)(o)
+                ops.append(('RegOp', t))
+            elif what == 'unreg':
+                reg.unregister_native(o)
+                ops.append(('UnregOp', t))
+            else:
+                adapting = what == 'adapt'
+                native = bool(AdaptRegistry.is_native(o))
+                res = ad.adapt_func(o) if adapting else ad.restore_func(o)
+                same = res is o
+                del rec[:]
+                res(make_graph('ANx', 'KOpt' if adapting else 'KDom', 1))
+                assert len(rec) == 1, rec
+                recv_dom = type(rec[0]) is nx.DiGraph
+                assert recv_dom or type(rec[0]) is OptGraph, type(rec[0])
+                ops_c = c_list(['(%s %s)' % (op, term_coq(tt)) for op, tt in ops], 'reg_op')
+                out.append(('(%s, %s, %s, %s, %s, %s)' % (ops_c, c_bool(adapting), term_coq(t), c_bool(native),
+                                                          c_bool(same), c_bool(recv_dom)),
+                            {'step': k, 'what': what, 'native': native, 'same': same, 'recv_dom': recv_dom,
+                             'history': len(ops)}))
+    finally:
+        for f in funs:
+            try:
+                reg.unregister_native(f)
+            except Exception:
+                pass
+    return out
+
+
 def real_method_checks():
     """bound methods / partials created by the language itself (not through MethodType)"""
     bad = []
@@ -865,7 +956,9 @@ def run(ctx):
                 'absent / outside the guard, nested attribute values) through BaseNetworkxAdapter, DumbNetworkxAdapter, '
                 'DirectAdapter (default and with a domain subclass), IdentityAdapter; wrapped calls over 5 adapter kinds '
                 'with graph / individual / sequence / tuple / None / scalar / empty / string arguments (positional and '
-                'keyword) and results; register / unregister histories over partial / bound-method nestings.  distinct = '
+                'keyword) and results; register / unregister histories over partial / bound-method nestings; sessions on ONE '
+                'adapter instance interleaving adapt_func / restore_func (outcome called with a graph) with register / '
+                'unregister on re-used callable objects.  distinct = '
                 'distinct generated description; non-trivial = at least 2 nodes and 1 edge (conversions), at least one '
                 'graph-bearing argument or result (calls), a wrapped query or a non-empty history (registry)')
     ctx.trusted_extra = [
@@ -1049,6 +1142,26 @@ def run(ctx):
                                           'as is, or an unregistered one is'], 1)
         if facts['raised']:
             ctx.violate('registry', desc, 'registry operation raised ' + facts['raised'])
+    # ---- sessions on one adapter instance
+    cases, metas = [], []
+    for i in range(ctx.budget(250, 5000)):
+        desc = gen_session_desc(r)
+        out = _safe(ctx, 'sessions', desc, run_session)
+        if out is None:
+            continue
+        for case, facts in out:
+            cases.append(case)
+            metas.append((desc, facts))
+    res = ctx.coq_cases('sessions', REQ, SESSION_FN, cases, 2, case_ty=SESSION_TY, shard=_shard(len(cases), 300), preamble=PRE)
+    for (desc, facts), rr in zip(metas, res):
+        case = dict(desc, failing_step=facts['step'])
+        ctx.count('sessions', key=(desc, facts['step']), nontrivial=facts['history'] > 0, wrapper=facts['what'],
+                  native=facts['native'], history=min(facts['history'], 5))
+        _flag(ctx, 'sessions', case, rr, ['adapt_func / restore_func in a session differ from the model',
+                                          'in a session on one adapter: a function registered as native is not used as is '
+                                          '(or a domain function is not called with restored graphs) after the registry changed'], 1)
+    if metas:
+        ctx.sample({'group': 'sessions', 'input': metas[0][0], 'facts': metas[0][1]})
     bad = real_method_checks()
     ctx.count('registry', key='language-made bound methods', nontrivial=True)
     if bad:
@@ -1099,6 +1212,12 @@ def replay(ctx, payload):
         for rr in res:
             _flag(ctx, 'replay', desc, rr, ['DirectAdapter differs from the model',
                                             'DirectAdapter loses content / classes or shares objects'], 1)
+    elif group == 'sessions':
+        out = run_session(desc)
+        res = ctx.coq_cases('replay', REQ, SESSION_FN, [c for c, _ in out], 2, case_ty=SESSION_TY, preamble=PRE)
+        for rr in res:
+            _flag(ctx, 'replay', desc, rr, ['session differs from the model',
+                                            'native / domain decision not honoured after the registry changed'], 1)
     elif group == 'registry' and 'ops' in desc:
         case, facts = run_registry(desc)
         res = ctx.coq_cases('replay', REQ, REG_FN, [case], 2, case_ty=REG_TY, preamble=PRE)
